@@ -99,10 +99,15 @@ def run_fifo(case, rng):
     bench.precommit_hooks = [inj.hook]
     drv = bench.add(SourceDriver(dut.sink, toks, Then(make_sched(rng)[0], hostile), rng), "a")
     im = bench.add(EndpointMonitor(dut.sink, "sink"), "a")
-    bench.add(SinkDriver(dut.source, Then(make_sched(rng)[0], hostile)), "b")
+    snk = bench.add(SinkDriver(dut.source, Then(make_sched(rng)[0], hostile)), "b")
     om = bench.add(EndpointMonitor(dut.source, "source", check_stability=True), "b")
+    # half of the common-reset cases: the consumer is stalled from before each reset assertion until 12 cycles of each clock
+    # after its release. The unchanged crossing invents nothing then (the phantom is withdrawn), so there every invented token is
+    # unlisted - this is what separates the listed finding from a read side that is not reset at all
+    quiet = kind == "cdc_rst" and rng.random() < 0.5
     resets = []
-    reset_windows = []                    # [assertion, release] in b cycles (held until both domains saw it long enough)
+    reset_windows = []                    # [assertion, release (b cycles), release (a cycles)]: held until both domains saw it
+    a_at_b = {}                           # b cycle -> cycle count of domain a
 
     class Ctl:
         """ends the run (domain b is primary): everything delivered, or nothing moved for a long time; drives reset pulses"""
@@ -115,6 +120,8 @@ def run_fifo(case, rng):
             self.stalled = None
             self.coop = None
             self.last_a = 0
+            self.pre = None
+            self.post = None
 
         def signals(self):
             return []
@@ -122,6 +129,7 @@ def run_fifo(case, rng):
         def step(self, v, c):
             self.c = c
             ca = bench.cycle["a"]
+            a_at_b[c] = ca
             t = len(im.log) + len(om.log)
             if t != self.tot:
                 self.tot, self.last, self.last_a = t, c, ca
@@ -145,13 +153,26 @@ def run_fifo(case, rng):
                         self.rst_left = 0
                         self.released = (c, bench.cycle["a"])
                         reset_windows[-1][1] = c
+                        reset_windows[-1][2] = bench.cycle["a"]
+                        if quiet:
+                            self.post = (c, bench.cycle["a"])
                         w = {cd_a.rst: 0, cd_b.rst: 0}
-                elif c < hostile and rng.random() < 0.01:
+                elif quiet and self.post is not None:
+                    if c - self.post[0] >= 12 and ca - self.post[1] >= 12:
+                        snk.hold = False
+                        self.post = None
+                elif quiet and self.pre is None and c < hostile and rng.random() < 0.01:
+                    snk.hold = True
+                    self.pre = 3
+                elif quiet and self.pre is not None and self.pre > 0:
+                    self.pre -= 1
+                elif (quiet and self.pre == 0) or (not quiet and c < hostile and rng.random() < 0.01):
+                    self.pre = None
                     self.rst_left = rng.randint(3, 6)
                     self.rst_a, self.rst_b = bench.cycle["a"], c
                     which = rng.choice([cd_a.rst, cd_b.rst])
                     resets.append(c)
-                    reset_windows.append([c, None])
+                    reset_windows.append([c, None, None])
                     w = {which: 1}
             return w
 
@@ -175,22 +196,35 @@ def run_fifo(case, rng):
             errs.append({"kind": "token-lost-or-stalled", "accepted": len(acc), "delivered": len(dlv), "stall": ctl.stalled})
     else:
         # with resets: delivered must be an in-order subsequence of accepted, unaltered, no duplicates. Named apart (listed
-        # finding): tokens invented by a reset itself - OFFERED (valid rising) while a reset is asserted or within 10 cycles of
-        # its release: the two sides of the crossing leave reset at different instants and the read side sees a non-empty
-        # FIFO meanwhile. How long such a token then waits for the consumer is irrelevant, so the offer instant is judged, not
-        # the delivery instant. A token invented at any other time, or a wrong token, is the unlisted kind.
+        # finding, mechanism seen in traces of the unchanged code): the read side is released / keeps running while the
+        # synchronised copy of the write pointer still holds its pre-reset value, so a consumer that is ready INSIDE the reset
+        # window takes a phantom token; the two pointers are then out of step and up to 2*depth further invented tokens follow
+        # at the consumer's pace, long after the reset. Without a delivery inside the window the phantom is withdrawn and
+        # nothing is invented. So: invented tokens belong to the listed finding iff the first one after that reset assertion
+        # was DELIVERED inside [assertion, release + 10 cycles of each clock]; the following ones (at most 2*depth + 2) are
+        # its consequences. Invented tokens that start outside such a window, more of them, or a wrong token, are unlisted.
         j = 0
         phantom = None
+        chain = {}                          # reset assertion -> number of invented tokens attributed to it
         for i, b_ in enumerate(dlv):
             jj = j
             while jj < len(acc) and acc[jj] != b_:
                 jj += 1
             if jj >= len(acc):
                 cyc, off = om.log[i][0], om.offered_at[i]
-                near = [r_ for r_ in reset_windows if r_[0] <= off <= (r_[1] if r_[1] is not None else off) + 10]
                 info = {"index": i, "delivered": b_, "offered_at_b_cycle": off, "delivered_at_b_cycle": cyc,
-                        "reset_windows": reset_windows[:5]}
-                if near:
+                        "reset_windows": reset_windows[:6]}
+                last = [r_ for r_ in reset_windows if r_[0] <= cyc]
+                known = False
+                if last:
+                    r_ = last[-1]
+                    inside = r_[1] is None or cyc <= r_[1] + 10 or a_at_b.get(cyc, 0) <= r_[2] + 10
+                    if quiet:
+                        info["consumer_stalled_around_resets"] = True
+                    elif inside or (chain.get(r_[0], 0) >= 1 and chain[r_[0]] < 2 * depth + 2):
+                        known = True
+                        chain[r_[0]] = chain.get(r_[0], 0) + 1
+                if known:
                     phantom = phantom or dict(info, kind="phantom-token-at-reset-assertion")
                     continue                              # not part of the accepted sequence: keep looking from the same place
                 errs.append(dict(info, kind="token-corrupted-duplicated-or-reordered-across-reset"))
